@@ -22,6 +22,9 @@ let dec_n (s : string) : n = n_of_int (int_of_string s)   (* values below 2^62 o
 (* ---- annotations *)
 let open_tbl : (string, open_info option) Hashtbl.t = Hashtbl.create 64
 let upd_tbl : (string, uevent list) Hashtbl.t = Hashtbl.create 64
+(* use_stack: answer the BGP layer's questions with the instantiated component models
+   (Model.BMPStack: BGPCodec + UpdateApply) on the raw bytes instead of the tabulated real code *)
+let use_stack = ref false
 let missing : string list ref = ref []
 
 let parse_pfx (s : string) : (n * n) =
@@ -66,12 +69,14 @@ let add_annotation (tok : string) : unit =
     end
 
 let open_decode (b : n list) : open_info option =
+  if !use_stack then stack_open_decode b else
   let k = hex_of_bytes b in
   match Hashtbl.find_opt open_tbl k with
   | Some r -> r
   | None -> missing := ("O:" ^ k) :: !missing; None
 
 let upd_apply (ap4 : bool) (ap6 : bool) (a32 : bool) (b : n list) : uevent list =
+  if !use_stack then stack_upd_apply ap4 ap6 a32 b else
   let k = b2s ap4 ^ b2s ap6 ^ b2s a32 ^ ":" ^ hex_of_bytes b in
   match Hashtbl.find_opt upd_tbl k with
   | Some r -> r
@@ -122,8 +127,38 @@ let starts (p : string) (s : string) : bool =
 (* proven bound on the BMP-layer allocation cost of serve (Properties/C27.v) *)
 let cost_bound (l : int) (frames : int) : int = 8 * l + 5800 * (frames + 1)
 
-let mism = ref 0 and compared = ref 0
-let mismatch id fmt = Printf.ksprintf (fun s -> incr mism; Printf.printf "CORR-MISMATCH case=%s %s\n" id s) fmt
+let mism = ref 0 and compared = ref 0 and stack_compared = ref 0
+let mismatch id fmt =
+  Printf.ksprintf (fun s -> incr mism;
+                    Printf.printf "CORR-MISMATCH case=%s %s%s\n" id (if !use_stack then "[instantiated stack] " else "") s) fmt
+
+(* the tabulated BGP layer (real code) against the component models, entry by entry *)
+let event_str (e : uevent) : string =
+  match e with
+  | UAnn (v6, (a, l), id, pa) ->
+    Printf.sprintf "A%s~%s/%d~%d~e%s;%s;%d;%s" (if v6 then "6" else "4") (hex_of_n a) (int_of_n l) (int_of_n id)
+      (b2s pa.pa_empty) (String.concat "." (List.map (fun x -> string_of_int (int_of_n x)) pa.pa_asns))
+      (int_of_n pa.pa_originator) (String.concat "." (List.map (fun x -> string_of_int (int_of_n x)) pa.pa_clusters))
+  | UWdr (v6, (a, l), id) -> Printf.sprintf "W%s~%s/%d~%d" (if v6 then "6" else "4") (hex_of_n a) (int_of_n l) (int_of_n id)
+let events_str (l : uevent list) : string = if l = [] then "-" else String.concat "," (List.map event_str l)
+let open_str (o : open_info option) : string =
+  match o with
+  | None -> "E"
+  | Some o -> Printf.sprintf "%d;%d;%s;%s" (int_of_n o.o_asn) (int_of_n o.o_bgpid)
+                (String.concat "," (List.map (fun x -> string_of_int (int_of_n x)) o.o_asn4))
+                (String.concat "," (List.map (fun ((a, s), r) -> Printf.sprintf "%d.%d.%d" (int_of_n a) (int_of_n s) (int_of_n r)) o.o_addpath))
+
+let compare_layers id =
+  Hashtbl.iter (fun k v ->
+      let m = stack_open_decode (bytes_of_hex k) in
+      if m <> v then mismatch id "OPEN %s: component model (BGPCodec) gives %s, the implementation %s" k (open_str m) (open_str v))
+    open_tbl;
+  Hashtbl.iter (fun k v ->
+      (* key: <ap4><ap6><asn32>:<hex> *)
+      let fl = String.sub k 0 3 and hx = String.sub k 4 (String.length k - 4) in
+      let m = stack_upd_apply (fl.[0] = '1') (fl.[1] = '1') (fl.[2] = '1') (bytes_of_hex hx) in
+      if m <> v then mismatch id "BGP message %s: component models (BGPCodec + UpdateApply) give %s, the implementation %s" k (events_str m) (events_str v))
+    upd_tbl
 
 (* ---- C27: one byte stream served to the end *)
 let run_c27 id (c : cfg) (stream : n list) (obs : string list) =
@@ -220,9 +255,18 @@ let () =
         match inp with
         | c :: rest ->
           let c = parse_cfg c in
-          (match rest with
-           | [s] when starts "s=" s -> run_c27 id c (bytes_of_hex (String.sub s 2 (String.length s - 2))) obs
-           | _ -> run_c28 id c rest obs)
+          let go () =
+            (match rest with
+             | [s] when starts "s=" s -> run_c27 id c (bytes_of_hex (String.sub s 2 (String.length s - 2))) obs
+             | _ -> run_c28 id c rest obs) in
+          use_stack := false; go ();
+          (* the same case once more on the instantiated stack: raw bytes, no tabulated BGP layer *)
+          let before = !mism in
+          use_stack := true;
+          compare_layers id;
+          if !mism = before then (missing := []; go ());
+          incr stack_compared;
+          use_stack := false
         | [] -> mismatch id "empty input"
       end);
-  Printf.printf "STATS compared=%d mismatches=%d\n" !compared !mism
+  Printf.printf "STATS compared=%d mismatches=%d stack_compared=%d\n" !compared !mism !stack_compared
